@@ -9,6 +9,7 @@ import (
 	"net"
 	"os"
 	"sync"
+	"sync/atomic"
 	"testing"
 	"time"
 
@@ -54,7 +55,7 @@ type lifeCase struct {
 	// WriteDelayMs: every server-side Write on an accepted connection is delayed by this much (slow peer / congested link),
 	// so a reply can still be on its way out when Shutdown polls the connections
 	WriteDelayMs int `json:"write_delay_ms,omitempty"`
-	// WriteTimeoutMs: Server.WriteTimeout (0: 3 s). A short value combined with slow handlers checks that the time a handler
+	// WriteTimeoutMs: Server.WriteTimeout (0: 30 s). A short value combined with slow handlers checks that the time a handler
 	// takes does not eat into the time allowed for writing its reply.
 	WriteTimeoutMs int `json:"write_timeout_ms,omitempty"`
 	// AcceptDelayMs (only with OnAccept): the accept callback takes this long after it has been entered, so the following steps -
@@ -97,7 +98,7 @@ func (c slowConn) Write(p []byte) (int, error) {
 	return c.Conn.Write(p)
 }
 
-// shutdownWithin calls Shutdown with a context of the given duration and waits at most 5 s longer for it to return.
+// shutdownWithin calls Shutdown with a context of the given duration and waits at most 20 s longer for it to return.
 func shutdownWithin(s *server.Server, d time.Duration) (err error, returned bool) {
 	sctx, sc := context.WithTimeout(context.Background(), d)
 	defer sc()
@@ -106,10 +107,15 @@ func shutdownWithin(s *server.Server, d time.Duration) (err error, returned bool
 	select {
 	case err = <-ch:
 		return err, true
-	case <-time.After(d + 5*time.Second):
+	case <-time.After(d + patience):
 		return nil, false
 	}
 }
+
+// patience is how long the lifecycle scenario waits for something the server owes (a reply, a handler start, Shutdown's return after
+// its context has ended) before it calls it missing: a starved machine (every core taken by other race-enabled test binaries) has
+// been seen to take more than 5 s for a plain request.
+const patience = 20 * time.Second
 
 // panicUnit: a request for this unit id makes the handler panic
 const panicUnit = 0xEE
@@ -151,6 +157,9 @@ type handler struct {
 	ev  *events
 	dev *device.Device
 	mu  sync.Mutex
+	// serveCancelled is set by the scenario before it cancels the serve context. Until then the context a handler is given is live, and
+	// the handler - like a gateway that passes its context on to an upstream call - fails when it finds it done.
+	serveCancelled atomic.Bool
 }
 
 func (h *handler) Handle(ctx context.Context, req packet.Request) (packet.Response, error) {
@@ -167,6 +176,9 @@ func (h *handler) Handle(ctx context.Context, req packet.Request) (packet.Respon
 	}
 	if d := int(raw[6]); d > 0 { // unit id = handler duration in ms
 		time.Sleep(time.Duration(d) * time.Millisecond)
+	}
+	if err := ctx.Err(); err != nil && !h.serveCancelled.Load() {
+		return nil, fmt.Errorf("handler: the context it was given is done although nobody cancelled the serve context: %w", err)
 	}
 	h.mu.Lock()
 	reply := h.dev.Answer(spec.TCP, raw)
@@ -256,7 +268,7 @@ func runLifeOnce(c lifeCase) harness.Result {
 		ev.nAccept = -1 // the warm-up connection (see below) takes accept index -1
 	}
 	h := &handler{ev: ev, dev: device.New(c.Seed)}
-	s := &server.Server{ReadTimeout: 10 * time.Millisecond, WriteTimeout: 3 * time.Second}
+	s := &server.Server{ReadTimeout: 10 * time.Millisecond, WriteTimeout: 30 * time.Second}
 	if c.ReadTimeoutMs > 0 {
 		s.ReadTimeout = time.Duration(c.ReadTimeoutMs) * time.Millisecond
 	}
@@ -305,7 +317,8 @@ func runLifeOnce(c lifeCase) harness.Result {
 			ev.mu.Unlock()
 		}
 	}
-	ctx, cancel := context.WithCancel(context.Background())
+	ctx, cancelServe := context.WithCancel(context.Background())
+	cancel := func() { h.serveCancelled.Store(true); cancelServe() }
 	defer cancel()
 	serveErr := make(chan error, 1)
 	var serveOn net.Listener = listener
@@ -473,8 +486,8 @@ func runLifeOnce(c lifeCase) harness.Result {
 			}
 			if st.Op == "inflight" {
 				// wait until the handler has signalled its start, then leave the reply unread
-				if !ev.wait(5*time.Second, func() bool { return ev.started[cl.local] > before }) {
-					return fail("step %d: handler did not start within 5 s", si)
+				if !ev.wait(patience, func() bool { return ev.started[cl.local] > before }) {
+					return fail("step %d: handler did not start within %v", si, patience)
 				}
 				cl.inflight, cl.inflightStarted = want, true
 				cl.sure = true
@@ -484,7 +497,7 @@ func runLifeOnce(c lifeCase) harness.Result {
 				}
 				continue
 			}
-			got, err := readFull(cl.conn, len(want), 5*time.Second)
+			got, err := readFull(cl.conn, len(want), patience)
 			if err != nil || !bytes.Equal(got, want) {
 				return fail("step %d: request %x: received %x (%v), want %x", si, req, got, err, want)
 			}
@@ -506,7 +519,7 @@ func runLifeOnce(c lifeCase) harness.Result {
 			if _, err := cl.conn.Write(burst); err != nil {
 				return fail("step %d: write failed: %v", si, err)
 			}
-			got, err := readFull(cl.conn, len(wants), 5*time.Second)
+			got, err := readFull(cl.conn, len(wants), patience)
 			if err != nil || !bytes.Equal(got, wants) {
 				return fail("step %d: 25 pipelined requests: received %x (%v), want %x", si, got, err, wants)
 			}
@@ -577,7 +590,7 @@ func runLifeOnce(c lifeCase) harness.Result {
 			// later Shutdown is judged as usual: success only once every started request has been answered and idle connections are closed
 			err, returned := shutdownWithin(s, 5*time.Millisecond)
 			if !returned {
-				return fail("step %d: Shutdown did not return within 5 s after its own context (5 ms) had expired", si)
+				return fail("step %d: Shutdown did not return within 20 s after its own context (5 ms) had expired", si)
 			}
 			if err == nil {
 				shutdownDone = true
@@ -589,7 +602,7 @@ func runLifeOnce(c lifeCase) harness.Result {
 		case "shutdown":
 			err, returned := shutdownWithin(s, 10*time.Second)
 			if !returned {
-				return fail("step %d: Shutdown did not return within 5 s after its own context (10 s) had expired", si)
+				return fail("step %d: Shutdown did not return within 20 s after its own context (10 s) had expired", si)
 			}
 			if err != nil && shortFailed {
 				// e.g. the listener is reported as closed already: no success, so nothing is promised
@@ -641,7 +654,7 @@ func runLifeOnce(c lifeCase) harness.Result {
 	if !shutdownDone {
 		err, returned := shutdownWithin(s, 10*time.Second)
 		if !returned {
-			return fail("final Shutdown did not return within 5 s after its own context (10 s) had expired")
+			return fail("final Shutdown did not return within 20 s after its own context (10 s) had expired")
 		}
 		if err != nil && !cancelled && !shortFailed {
 			return fail("final Shutdown returned %v", err)
@@ -689,7 +702,7 @@ func runLifeOnce(c lifeCase) harness.Result {
 			}
 			if cl.inflight != nil {
 				// handler had started before Shutdown was called: the complete reply must arrive
-				got, err := readFull(cl.conn, len(cl.inflight), 5*time.Second)
+				got, err := readFull(cl.conn, len(cl.inflight), patience)
 				if err != nil || !bytes.Equal(got, cl.inflight) {
 					return fail("client %d had a request in flight whose handler had started before Shutdown: received %x (%v), want the complete reply %x", i, got, err, cl.inflight)
 				}
@@ -903,6 +916,7 @@ type twiceCase struct {
 func runTwice(c twiceCase) harness.Result {
 	ev := &events{accepts: map[string][]uint64{}, closes: map[string]int{}, started: map[string]int{}, served: make(chan string, 4), rejectIx: map[int]bool{}}
 	h := &handler{ev: ev, dev: device.New(c.Seed)}
+	h.serveCancelled.Store(true) // (this scenario cancels serve contexts while handlers run)
 	s := &server.Server{ReadTimeout: 5 * time.Millisecond, OnErrorFunc: func(error) {}}
 	s.OnServeFunc = func(a net.Addr) { ev.served <- a.String() }
 	// The two serve calls listen on different ports, so the kernel may give a client of the second one the same local port as a
@@ -1343,17 +1357,14 @@ type startCase struct {
 
 func runStart(c startCase) harness.Result {
 	var l net.Listener
-	var dial func() (net.Conn, error)
 	if c.RealTCP {
 		tl, err := net.Listen("tcp", "127.0.0.1:0")
 		if err != nil {
 			return harness.Result{Labels: []string{"harness:no-loopback"}}
 		}
 		l = tl
-		dial = func() (net.Conn, error) { return net.DialTimeout("tcp", tl.Addr().String(), time.Second) }
 	} else {
-		pl := xport.NewPipeListener()
-		l, dial = pl, pl.Dial
+		l = xport.NewPipeListener()
 	}
 	defer l.Close()
 	s := &server.Server{ReadTimeout: 10 * time.Millisecond, WriteTimeout: 2 * time.Second}
@@ -1401,9 +1412,26 @@ func runStart(c startCase) harness.Result {
 	case <-time.After(10 * time.Second):
 		return harness.Fail("graceful shutdown %d us after the serve callback was entered (the callback takes %d us) returned nil, but the serve call did not return within 10 s", c.ShutdownAfterUs, c.ServeDelayUs)
 	}
-	if conn, err := dial(); err == nil {
-		_ = conn.Close()
-		return harness.Fail("the port still accepts connections after the graceful shutdown and the serve call have returned")
+	// the port no longer accepts connections: probed on the listener object itself (Accept must fail at once) - a dial to the old
+	// address proves nothing, another process may have been given the same ephemeral port meanwhile
+	type acc struct {
+		c   net.Conn
+		err error
+	}
+	ach := make(chan acc, 1)
+	go func() {
+		ac, err := l.Accept()
+		ach <- acc{ac, err}
+	}()
+	select {
+	case a := <-ach:
+		if a.err == nil {
+			_ = a.c.Close()
+			return harness.Fail("the listening socket still accepts connections after the graceful shutdown and the serve call have returned")
+		}
+	case <-time.After(2 * time.Second):
+		_ = l.Close()
+		return harness.Fail("the listening socket is still open after the graceful shutdown and the serve call have returned (Accept blocks instead of failing)")
 	}
 	return harness.Result{NonTrivial: c.ShutdownAfterUs < c.ServeDelayUs, Labels: labels}
 }
